@@ -1256,3 +1256,237 @@ def drive(ctx, pid, specs, step_oracle, end_oracle, checker, corr_key, nontrivia
                                                                                 callbacks=[c[:2] if c[0] == "count" else ("result", c[2]) for c in s.callbacks], pi=s.pi) for s in tr.steps]))
     ctx.traces += len(glits)
     return kept
+
+
+# ------------------------------------------------------------------ solver level (C11: results of earlier solves)
+def snap_individual(ind, table: Table):
+    if hasattr(ind, "layers"):
+        return ["evqe", table.idx(ind)]
+    if hasattr(ind, "ident"):
+        return ["scripted", int(ind.ident), int(getattr(ind, "n_qubits", -1))]
+    return ["other", repr(ind)]
+
+
+def snap_any_population(pop, table: Table):
+    if hasattr(pop, "species_representatives"):
+        return snapshot_population(pop, table)
+    return dict(token=getattr(pop, "token", None), inds=[snap_individual(i, table) for i in pop.individuals])
+
+
+def snap_evaluation_result(r, table: Table):
+    return dict(population=snap_any_population(r.population, table), values=[None if v is None else float(v).hex() for v in r.expectation_values],
+                best=snap_individual(r.best_individual, table), best_value=float(r.best_expectation_value).hex())
+
+
+def _snap_number(x):
+    try:
+        c = complex(x)
+        return [float(c.real).hex(), float(c.imag).hex()]
+    except Exception:  # noqa: BLE001
+        return repr(x)
+
+
+def snap_solver_result(res, table: Table):
+    """Structural snapshot of an EvolvingAnsatzMinimumEigensolverResult, field by field."""
+    hist = res.population_evaluation_results
+    aux = res.aux_operators_evaluated
+    es = res.eigenstate
+    return dict(
+        history=None if hist is None else [snap_evaluation_result(r, table) for r in hist],
+        circuit_evaluations=None if res.circuit_evaluations is None else [int(x) for x in res.circuit_evaluations],
+        generations=res.generations,
+        eigenvalue=_snap_number(res.eigenvalue),
+        best_individual=None if res.best_individual is None else snap_individual(res.best_individual, table),
+        eigenstate=None if es is None else sorted((str(k), float(v).hex()) for k, v in dict(es).items()),
+        aux=None if aux is None else ([_snap_number(a) for a in aux] if isinstance(aux, list) else sorted((str(k), _snap_number(v)) for k, v in aux.items())),
+        initial_state=None if res.initial_state_circuit is None else id(res.initial_state_circuit),
+    )
+
+
+def mutable_ids_of_result(res):
+    """ids of the mutable containers a solver result hands out (for the identity graph between results)."""
+    out = {}
+    if res.population_evaluation_results is not None:
+        out["population_evaluation_results"] = id(res.population_evaluation_results)
+        for k, r in enumerate(res.population_evaluation_results):
+            out[f"evaluation_result[{k}]"] = id(r)
+            for name, i in identity_of(r.population).items() if hasattr(r.population, "species_representatives") else ():
+                if isinstance(i, int):
+                    out[f"evaluation_result[{k}].population.{name}"] = i
+    if res.circuit_evaluations is not None:
+        out["circuit_evaluations"] = id(res.circuit_evaluations)
+    if isinstance(res.aux_operators_evaluated, (list, dict)):
+        out["aux_operators_evaluated"] = id(res.aux_operators_evaluated)
+    return out
+
+
+def diff_snap(a, b, path="result"):
+    """First difference between two snapshots as (path, was, is) or None."""
+    if type(a) != type(b):
+        return path, a, b
+    if isinstance(a, dict):
+        for k in a:
+            if k not in b:
+                return f"{path}.{k}", a[k], None
+            d = diff_snap(a[k], b[k], f"{path}.{k}")
+            if d:
+                return d
+        return None
+    if isinstance(a, (list, tuple)):
+        if len(a) != len(b):
+            return f"{path} (length)", len(a), len(b)
+        for i, (x, y) in enumerate(zip(a, b)):
+            d = diff_snap(x, y, f"{path}[{i}]")
+            if d:
+                return d
+        return None
+    return None if a == b else (path, a, b)
+
+
+def make_snapshot_criterion(table: Table):
+    """A termination criterion that never terminates and records a structural snapshot of every evaluation result at
+    the time it is reported, one list per solve (reset_state starts a new list)."""
+    from queasars.minimum_eigensolvers.base.termination_criteria import EvolvingAnsatzMinimumEigensolverBaseTerminationCriterion
+
+    class SnapshotCriterion(EvolvingAnsatzMinimumEigensolverBaseTerminationCriterion):
+        def __init__(self):
+            self.runs = []
+
+        def reset_state(self):
+            self.runs.append([])
+
+        def check_termination(self, population_evaluation, best_individual, best_expectation_value):
+            if not self.runs:
+                self.runs.append([])
+            try:
+                self.runs[-1].append(snap_evaluation_result(population_evaluation, table))
+            except Exception as e:  # noqa: BLE001
+                self.runs[-1].append({"unreadable": f"{type(e).__name__}: {e}"})
+            return False
+
+    return SnapshotCriterion()
+
+
+def solver_level_cases(rng, n_scripted, n_evqe, n_package):
+    """JSON-able cases of the solver-level family: kind scripted | evqe | package; every case is solved at least twice on
+    ONE solver object and once on a fresh one."""
+    cases = []
+    for _ in range(n_scripted):
+        g = rng.randint(1, 3)
+        n_apps = 4 * g + 4
+        apps = []
+        for k in range(n_apps):
+            evs = [["count", rng.randint(0, 9)]]
+            if rng.random() < 0.8 or k % 2 == 1:
+                evs.append(["result", k, rng.randint(0, 3), rng.choice([-1.0, 0.0, 0.5, 2.0, 3.25])])
+            apps.append(dict(events=evs, ret=k + 1))
+        cases.append(dict(kind="scripted", n_ops=rng.randint(1, 3), n_qubits=2, max_generations=g, apps=apps, solves=rng.choice([2, 2, 3])))
+    for kind, count in (("evqe", n_evqe), ("package", n_package)):
+        for _ in range(count):
+            pop = rng.randint(2, 3)
+            tournament = rng.random() < 0.5
+            setup = dict(n_qubits=rng.choice([1, 2, 2]), evaluator=rng.choice(["estimator", "sampler", "bitstring"]), population_size=pop, workers=rng.choice([1, 2]),
+                         mutex=False, tournament=tournament, tournament_size=rng.randint(1, pop) if tournament else None, seed=rng.randint(0, 10**6),
+                         n_initial_layers=1, randomize=rng.random() < 0.5, p_param=rng.choice([0.0, 0.3]), p_topo=rng.choice([0.5, 1.0]), p_remove=rng.choice([0.0, 0.3]),
+                         distance=rng.choice([1, 2]), opt_estimate=None, max_generations=rng.randint(1, 2), max_evals=None, criterion=None, init=rng.choice([None, "x0"]),
+                         aux=rng.choice([None, "list", "dict"]), coeffs=[rng.choice([-1.0, -0.5, 0.25, 0.5, 1.0, 2.0]) for _ in range(4)], alpha=1, shots=32, family=kind,
+                         more=[dict(coeffs=[rng.choice([-2.0, -1.0, 0.5, 1.0, 1.5]) for _ in range(4)], init=rng.choice([None, "x0"]), aux=rng.choice([None, "list", "dict"]))])
+            cases.append(dict(kind=kind, setup=setup, solves=2))
+    return cases
+
+
+def run_solver_case(case, report):
+    """Solve #1, snapshot its result; solve #2 (.. #k) on the SAME solver with another problem; one solve on a FRESH
+    solver; garbage collection — after each of these the first result's live objects are compared with the snapshot, and
+    each result's history with what was reported through result_callback during ITS OWN solve.
+    report(key, what).  Returns a dict of notes (identity graph between the results)."""
+    import gc
+
+    from . import solverkit as sk
+
+    table = Table()
+    notes = dict(shared=[])
+
+    def build():
+        crit = make_snapshot_criterion(table)
+        if case["kind"] == "scripted":
+            tape = sk.ScriptTape(case["apps"], [], case["n_qubits"])
+            solver = sk.build_scripted_solver(case["n_ops"], tape, max_generations=case["max_generations"], criterion=crit)
+            n = case["n_qubits"]
+
+            def problem(k):
+                ev = sk.BitstringEvaluator(n, lambda b, _k=k: float(int(b, 2) + _k))
+                return lambda: solver.compute_minimum_function_value(operator=ev, aux_operators=None if k % 2 == 0 else [ev], initial_state_circuit=None)
+        else:
+            setup = case["setup"]
+            solver, call0, _ = (sk.build_evqe if case["kind"] == "evqe" else sk.build_package_solver)(setup, criterion=crit)
+
+            def problem(k):
+                if k == 0:
+                    return call0
+                more = setup["more"][(k - 1) % len(setup["more"])]
+                return sk.evqe_problem(solver, setup, more)[0]
+        return solver, crit, problem
+
+    def solve(problem_call, label):
+        try:
+            return problem_call()
+        except Exception as e:  # noqa: BLE001
+            notes.setdefault("solve_exceptions", []).append(f"{label}: {type(e).__name__}: {str(e)[:120]}")
+            return None
+
+    def compare(results, crit, when):
+        for k, (res, snap) in enumerate(results):
+            if res is None:
+                continue
+            try:
+                now = snap_solver_result(res, table)
+            except Exception as e:  # noqa: BLE001
+                report("result-unreadable-after-later-solve", f"the result of solve #{k + 1} cannot be read {when}: {type(e).__name__}: {e}")
+                continue
+            d = diff_snap(snap, now)
+            if d:
+                field = d[0].split(".")[1].split("[")[0].split(" ")[0] if "." in d[0] else "result"
+                key = "result-history-changed-after-later-solve" if field == "history" else f"result-{field}-changed-after-later-solve"
+                report(key, f"the result returned by solve #{k + 1} changed {when}: {d[0]} was {str(d[1])[:200]} when the result was returned, is {str(d[2])[:200]} now")
+            # the history of a result describes the generations of ITS OWN solve as they were reported
+            if k < len(crit.runs) and now.get("history") is not None:
+                d2 = diff_snap(crit.runs[k], now["history"], "history")
+                if d2:
+                    report("result-history-differs-from-reported" + ("" if when == "when it was returned" else "-after-later-solve"),
+                           f"the history in the result of solve #{k + 1} is not what result_callback reported during that solve ({when}): {d2[0]} reported {str(d2[1])[:200]}, stored {str(d2[2])[:200]}")
+
+    solver, crit, problem = build()
+    results = []
+    for k in range(case.get("solves", 2)):
+        res = solve(problem(k), f"solve #{k + 1}")
+        snap = None
+        if res is not None:
+            try:
+                snap = snap_solver_result(res, table)
+            except Exception as e:  # noqa: BLE001
+                report("result-unreadable", f"the result of solve #{k + 1} cannot be read: {type(e).__name__}: {e}")
+                res = None
+        results.append((res, snap))
+        compare(results, crit, "when it was returned" if k == 0 else f"after solve #{k + 1} on the same solver object")
+    # a solve on a fresh solver object, then garbage collection
+    solver2, crit2, problem2 = build()
+    solve(problem2(0), "solve on a fresh solver")
+    compare(results, crit, "after a solve on a fresh solver object")
+    del solver2, crit2, problem2
+    gc.collect()
+    compare(results, crit, "after garbage collection")
+    # identity graph between the results of one solver
+    live = [(k, mutable_ids_of_result(r)) for k, (r, _) in enumerate(results) if r is not None]
+    for a in range(len(live)):
+        for b in range(a + 1, len(live)):
+            ida, idb = live[a][1], live[b][1]
+            inv = {}
+            for name, i in ida.items():
+                inv.setdefault(i, name)
+            for name, i in idb.items():
+                if i in inv:
+                    notes["shared"].append(f"solve #{live[a][0] + 1}.{inv[i]} is solve #{live[b][0] + 1}.{name}")
+    notes["solves"] = sum(1 for r, _ in results if r is not None)
+    notes["history_entries"] = sum(len(s["history"] or []) for r, s in results if r is not None)
+    return notes
